@@ -293,7 +293,11 @@ def validate(ck, traces, name, expect_reject=False):
         f.write_text(json.dumps(part))
         jobs.append(("PolyplyTrace", "Pp_trace.cfg", {"workers": 1, "env": {"TRACE_FILE": str(f)}, "check": False, "timeout": 3000}))
     rejected, last = {}, None
-    for k, res in enumerate(c.tlc_many(jobs, workers_each=1)):
+    group = max(2, c.NPROC // 2)        # at most this many JVMs at a time
+    results = []
+    for i in range(0, len(jobs), group):
+        results += c.tlc_many(jobs[i:i + group], workers_each=1)
+    for k, res in enumerate(results):
         last = res
         rej = res.tagged("REJECTED")
         if res.rc != 0 and not rej and not res.inv_violated:
@@ -455,7 +459,7 @@ def run(tier):
         ck.require(ck.actions.get(must), "S->I: no behaviour with %s (vacuous)" % must)
 
     ck.stage("I->S: seeded random chains, trace validation")
-    nrand = 90 if not full else 900
+    nrand = 90 if not full else 600
     rng = random.Random(sd * 7919 + 17)
     cases = [random_case(rng, k) for k in range(nrand)]
     accepted, tstats = trace_direction(ck, wd, cases, sd, "r")
@@ -484,7 +488,7 @@ def replay(path):
     wd = c.workdir(PROP, "replay")
     if case["kind"] == "S->I":
         x = case["exp"]
-        (st, r), = execute([{"case": x["case"], "wd": str(wd / "case"), "plan": plan_of(x), "seed": case.get("seed", 0), "light": True}])
+        (st, r), = execute([{"case": x["case"], "wd": str(wd / "case"), "plan": plan_of(x), "seed": case.get("seed", 0), "light": True, "keep": True}])
         if st != "ok":
             print("replay: runner returned", st, r)
             return 2
@@ -494,7 +498,7 @@ def replay(path):
         print("replayed: %s" % (("still differs: " + d) if d else "matches the specification now"))
         return 1 if d else 0
     if case["kind"] == "I->S":
-        job = dict(case["job"], wd=str(wd / "case"))
+        job = dict(case["job"], wd=str(wd / "case"), keep=True)
         (st, r), = execute([job])
         if st != "ok":
             print("replay: runner returned", st, r)
